@@ -20,10 +20,12 @@ package main
 
 import (
 	"bufio"
+	"encoding/binary"
 	"encoding/hex"
 	"fmt"
 	"github.com/ryogrid/SamehadaDB/lib/container/hash"
 	"github.com/ryogrid/SamehadaDB/lib/storage/buffer"
+	"github.com/spaolacci/murmur3"
 	"math"
 	"os"
 	"runtime/debug"
@@ -356,7 +358,7 @@ func runDB(args []string, in *bufio.Scanner, out *bufio.Writer) {
 				s.db.GetCatalogForTesting().CreateTable(a[0], schema.NewSchema(cols), txn)
 				shi.GetTransactionManager().Commit(s.db.GetCatalogForTesting(), txn)
 				return "ok:"
-			case "ixins", "ixdel", "ixscan", "ixupd", "ixrange":
+			case "ixins", "ixdel", "ixscan", "ixupd", "ixrange", "hthash":
 				// direct operations on the index object of <table>.<col> (C17): values as i:/f:/s: tokens
 				a := strings.Fields(rest)
 				tm := s.table(a[0])
@@ -388,6 +390,13 @@ func runDB(args []string, in *bufio.Scanner, out *bufio.Writer) {
 					return page.RID{PageID: types.PageID(int32(atoi64(p))), SlotNum: uint32(atoi64(sl))}
 				}
 				colType := sc.GetColumn(col).GetType()
+				if f[0] == "hthash" {
+					// the 64-bit hash under which the linear-probe hash table files this key (murmur3 x64_128 of the
+					// key bytes, first eight bytes little endian): an input of the hash-table model
+					h := murmur3.New128()
+					h.Write(mk(a[2]).GetValueInBytes(sc, col))
+					return fmt.Sprintf("ok:%016x", binary.LittleEndian.Uint64(h.Sum(nil)))
+				}
 				switch f[0] {
 				case "ixins":
 					ix.InsertEntry(mk(a[2]), rid(a[3], a[4]), nil)
